@@ -301,7 +301,7 @@ struct RegpHarness : Harness {
         else if (p == "C07") for (const char *s : {"frame_of_64k_octets_or_more", "damage_beyond_64k_words", "idle_turn_after_a_frame", "reply_could_not_be_sent", "flip1", "flip2", "burst", "truncate", "extend", "header_word_flip", "class_header_encoding", "class_header_crc", "class_payload_size", "class_payload_crc", "raw_accept", "raw_tcp", "option_plcrc_without_hdcrc", "odd_payload_ws16", "payload_fault_answered_with_error_response", "classified_from_fallback_buffer"}) v.push_back(s);
         else if (p == "C08") { for (const char *s : {"payload_of_64k_octets_or_more", "channel_attached_again_mid_session", "req_read8", "req_read16", "req_write8", "req_write16", "resp_ack_payload", "resp_ack_empty", "resp_meta", "payload_with_slip_control_octets", "varint_prefix_2_octets", "sequence_wrap", "roundtrip_accepted"}) v.push_back(s);
             for (int k = 1; k < 12; ++k) v.push_back("resp_code_" + std::to_string(k)); }
-        else for (const char *s : {"frame_of_64k_octets_or_more", "alloc_failure_with_parsable_header", "alloc_failure_without_parsable_header", "empty_frame", "short_frame", "frame_len_room_minus_1", "frame_len_room", "frame_len_room_plus_1", "rx_overflow", "read_at_limit_minus_1", "read_at_limit", "read_at_limit_plus_1", "tx_overflow", "channel_error_mid_frame", "odd_payload_ws16", "slab_allocator", "block_size_minimum", "served_after_fault", "illegal_slip_sequence_on_the_wire"}) v.push_back(s);
+        else for (const char *s : {"frame_of_64k_octets_or_more", "reply_could_not_be_sent", "alloc_failure_with_parsable_header", "alloc_failure_without_parsable_header", "empty_frame", "short_frame", "frame_len_room_minus_1", "frame_len_room", "frame_len_room_plus_1", "rx_overflow", "read_at_limit_minus_1", "read_at_limit", "read_at_limit_plus_1", "tx_overflow", "channel_error_mid_frame", "odd_payload_ws16", "slab_allocator", "block_size_minimum", "served_after_fault", "illegal_slip_sequence_on_the_wire"}) v.push_back(s);
         return v;
     }
     Json describe(const std::string &p) const override {
@@ -521,6 +521,7 @@ struct RegpHarness : Harness {
                 ops.push(o);
             }
             if (r.chance(1, 6)) { Json e = Json::arr(); e.push((long long)r.range(0, 60)); e.push(HARD_ERRORS[r.below(6)]); p["src_err"] = e; }
+            if (r.chance(1, 5)) { Json e = Json::arr(); e.push((long long)(r.chance(1, 2) ? r.below(4) : r.below(80))); e.push((long long)r.below(4)); p["snk_err"] = e; }
             if (!serial && r.chance(1, 8)) p["truncate_last"] = (long long)r.range(1, 8);
         }
         p["ops"] = ops;
@@ -984,6 +985,7 @@ struct RegpHarness : Harness {
         Node srv(c, &c2s, &s2c, cf.serial, cf.mt, cf.block, cf.slab, cf.so, cf.ko);
         srv.led.recycle = cf.recycle; srv.reconfigure(cf.confhist);
         load_frag(srv.src, plan);
+        if (plan.has("snk_err")) { srv.snk.err_at = plan.get("snk_err").ati(0, 0) & 1023; srv.snk.err_code = HARD_ERRORS[(size_t)(plan.get("snk_err").ati(1, 0) & 3)]; }
         srv.led.fail.load(plan.get("allocfail"));
         if (cf.slab) COUNT("probe.slab_allocator");
         if (cf.block <= sizeof(RPFrame) + 4) COUNT("probe.block_size_minimum");
@@ -1050,6 +1052,19 @@ struct RegpHarness : Harness {
             };
             if (!S.recv_returned || !S.proc_returned) { F("noprogress.stream", "%s did not return within the step budget", S.recv_returned ? "regp_process" : "regp_recv"); return; }
             if (S.unknown_free) { F("badfree.stream", "a pointer that is not a live allocator block was released"); return; }
+            if (S.snk_failed) {
+                // the channel sink failed once while this segment was being answered: the reply is lost, everything else still holds (see judge)
+                faulted = true;
+                const bool other_fault = sg.eilseq || (srv.src.err_fired && !err_before) || (trunc > 0 && si + 1 == segs.size());
+                if (other_fault) {   // two faults in one turn: only the ledger and "nothing executed after a failed reception" are judged, then the stream is left
+                    if (S.live_after != 0) { F("leak.channel_error", "%zu allocator block(s) are still held after a turn with channel faults", S.live_after); return; }
+                    if (S.be_calls && S.rc_recv < 0) { F("executed.channel_error", "memory accessed although reception failed"); return; }
+                    return;
+                }
+                Ctxt x0; x0.cf = &cf; x0.verdict = sg.verdict; x0.vaddr = (uint32_t)(f.addr + 1); x0.alloc_failed = srv.led.failed > failed0 && !sg.raw.empty();
+                if (!judge(c, srv, sg.raw, S, x0, "stream")) return;
+                continue;
+            }
             if (sg.eilseq && !(srv.src.err_fired && !err_before)) {
                 COUNT("probe.illegal_slip_sequence_on_the_wire");
                 if (S.rc_recv != -EILSEQ) { F("eilseq.stream", "illegal SLIP escape on the wire: regp_recv returned %d (error id %d), expected -EILSEQ", S.rc_recv, S.error_id); return; }
